@@ -175,7 +175,7 @@ def run_property(pid: str, tier: str, seed: int, jobs: int | None = None) -> int
     for key, vs in sorted(by_key.items()):
         ok = None
         for v in vs[:3]:
-            r = _run_worker(engine_name, "replay", {"pid": pid, "case": v["case"]}, 300)
+            r = _run_worker(engine_name, "replay", {"pid": pid, "case": v["case"]}, 300 if tier == "quick" else 2400)
             if "inconclusive" in r:
                 inconclusive.append(f"replay of {key}: {r['inconclusive']}: {r.get('stderr','')[-600:]}")
                 continue
